@@ -530,6 +530,18 @@ def r7(ctx: Ctx, m):
                  f'the constructor parameter `{pn}` of {ci.name} is never read:'
                  ' the configured value is silently ignored (for `timeout`:'
                  ' every inherited get/put waits without a deadline)', node=init.node)
+    # a parameter whose "unset" marker is None (Optional annotation) is never defaulted by
+    # truthiness: `timeout or None` turns the do-not-wait value 0 into wait-for-ever
+    optional = {a.arg for a in init.node.args.args + init.node.args.kwonlyargs
+                if a.annotation is not None and 'None' in unparse(a.annotation)}
+    for bo in ast.walk(init.node):
+      if isinstance(bo, ast.BoolOp) and isinstance(bo.op, ast.Or) and isinstance(bo.values[0], ast.Name) and (
+          bo.values[0].id in optional):
+        n += 1
+        ctx.fail(rule, init, f'{ci.name}.__init__: `{bo.values[0].id}` is taken as configured',
+                 f'`{unparse(bo)}` replaces a falsy `{bo.values[0].id}` — also the legitimate value 0 — although'
+                 ' None is its "not configured" marker: a timeout of 0 (do not wait) becomes no timeout at'
+                 ' all and a starved get/put blocks for ever instead of raising TimeoutError', node=bo)
     # parameters shared with the base constructor are forwarded under their name
     sup = [c for c in ast.walk(init.node) if isinstance(c, ast.Call)
            and unparse(c.func) == 'super().__init__']
@@ -803,6 +815,8 @@ VARIANTS = [
       '      raise e\n    while not self.enqueue_done:\n      try:\n        self.put(next(iterator))',
       '      raise e\n    while True:\n      try:\n        self.put(next(iterator))',
       'R-C05-3'),
+    B('timeout-zero-normalised-to-none', _F,
+      '    self.timeout = timeout\n', '    self.timeout = timeout or None\n', 'R-C05-7'),
     B('blocking-batch-waits-without-timeout', _F,
       '          if self._dequeue_lock.wait(timeout=self.timeout):\n            continue\n          if result:',
       '          timeout = None if block and result else self.timeout\n          if self._dequeue_lock.wait(timeout=timeout):\n            continue\n          if result:', 'R-C05-4'),
